@@ -22,6 +22,8 @@ Good ==
      { St("lit" \o l[1] \o ":" \o v, SExpr(Asg(v, Obj(l[2], FreshVals(l[2]))))) : v \in Vars, l \in Lits }
   \cup { St("alias:" \o v, SExpr(Asg(v, Id(Other(v))))) : v \in Vars }
   \cup { St("write:" \o v \o "." \o k, SExpr(PAsg(Id(v), k, Fresh))) : v \in Vars, k \in Keys3 }
+  \cup { St("litwrap:" \o v, SExpr(Asg(v, Obj(<<"in", "arr">>, <<Id(Other(v)), Arr(<<Id(Other(v))>>)>>)))) : v \in {"o"} }     \* an existing object as a value of a literal: shared, not copied
+  \cup { St("delnf:" \o v \o "." \o IntStr(i), SExpr(Call(Id("delkey"), <<Id(v), Lit(VStr(IF i = 1 THEN <<2527>> ELSE <<2479, 2492>>))>>))) : v \in {"o"}, i \in {1, 2} }
   \cup { St("writenil:" \o v \o "." \o k, SExpr(PAsg(Id(v), k, Lit(VNil)))) : v \in Vars, k \in {"a"} }     \* a property holding nil exists
   \cup { St("litnil:" \o v, SExpr(Asg(v, Obj(<<"b", "a">>, <<Lit(VNil), Lit(VNil)>>)))) : v \in {"o"} }
   \cup { St("del:" \o v \o "." \o k, SExpr(Call(Id("delkey"), <<Id(v), Str(k)>>))) : v \in Vars, k \in Keys3 }
@@ -63,7 +65,7 @@ Cases0 == Hists \o Randoms
 NC0 == Len(Cases0)
 Cases == Cases0 \o SelectSeq(Cases0, LAMBDA h : Len(h) >= 2)      \* second half: quiet rendering
 ShowO == << SPrint(Call(Id("keys"), <<Id("o")>>)), SPrint(Call(Id("values"), <<Id("o")>>)), SPrint(Id("o")) >>      \* one object only, so that nothing else is listed in between
-Programs == [i \in 1..Len(Cases) |-> FreshProg(Prelude \o (IF i <= NC0 THEN Body(Cases[i]) ELSE ShowO \o BodyQuiet(Cases[i]) \o ShowO \o Show), 1)]
+Programs == TLCEval([i \in 1..Len(Cases) |-> FreshProg(Prelude \o (IF i <= NC0 THEN Body(Cases[i]) ELSE ShowO \o BodyQuiet(Cases[i]) \o ShowO \o Show), 1)])
 FamProgOf(i) == Programs[i]
 Init == \E i \in 1..Len(Programs) : InitSem(i, <<>>, FALSE)
 Next == SemNext
